@@ -607,3 +607,75 @@ def undo_removes_new_keys(ctx, rule):
                "still found under the rolled-back key and a rolled-back UNIQUE value stays reserved", i.loc())
         k += 1
     ctx.floor(rule + ".undo_index_inserts", k, 2)
+
+
+def undo_restores_entry(ctx, rule):
+    """In undo_write_entry's per-index loops, once the index file exists and the restored row has non-null values for the index
+    columns, every continuing path re-inserts the old index entry.  A skip (for example "key unchanged") loses the entry when the
+    statement being undone was a DELETE: the tombstone still holds the old values, but the DELETE already removed the entry."""
+    from paths import call_named, assumed_cuts, success_escapes, describe_path
+    m = ctx.m
+    f = m.fn("database::transaction::<impl database::database::Database>::undo_write_entry")
+    ins = [c for c, t, s in index_key_shapes(m, f, methods=("insert",))]
+    A = [call_named("Option::<T>::is_none", False, desc="a value is being restored or undone"),
+         call_named("Option::<T>::filter", 1, desc="the index column values are non-null"),
+         call_named(["Iterator>::all", "Iterator::all"], True, desc="all index columns are non-null"),
+         call_named("::is_empty", False)]
+    cuts, applied = assumed_cuts(f, A)
+    n = 0
+    for c in f.calls:
+        if not c.name.endswith("FileManager::index_exists") or c.target is None:
+            continue
+        if not any(f.dominates(c.bb, i.bb) for i in ins):
+            continue
+        # true edge of the switch on the call's result
+        sw = c.target
+        t = f.blocks[sw]["t"]
+        if t[0] != "switch":
+            continue
+        pl = operand_place(t[1])
+        k, p, neg = f.origin(pl[0]) if pl and not pl[1] else (None, None, False)
+        false_t = [x[1] for x in t[3] if x[0] == 0] or [t[4]]
+        true_t = [t[4]] if [x for x in t[3] if x[0] == 0] else [x[1] for x in t[3] if x[0] == 1]
+        start = (false_t if neg else true_t)[0]
+        n += 1
+        esc = success_escapes(f, [start], [i.bb for i in ins], cuts)
+        ctx.ob(rule, "undo_write_entry#%d" % (n - 1), not esc, "the old index entry is always re-inserted" if not esc else
+               "the restore of an index entry can be skipped (%s): undoing a DELETE leaves the row visible to scans but missing from the index"
+               % describe_path(f, esc[0]), c.loc())
+    ctx.floor(rule + ".index_loops", n, 2)
+
+
+ROOT_WRITEBACK_FNS = {
+    # function id suffix -> minimum number of (BTree::root_page -> set_root_page / root map) write-backs, confirmed by reading
+    "database::toast::<impl database::database::Database>::toast_value": 1,
+    "database::dml::insert::<impl database::database::Database>::execute_insert_internal": 2,   # table + TOAST (index roots go through a map)
+    "database::batch::<impl database::database::Database>::insert_cached": 2,
+    "database::batch::<impl database::database::Database>::insert_batch_into_schema": 1,
+    "database::ddl::<impl database::database::Database>::execute_create_index": 1,
+}
+
+
+def root_writeback(ctx, rule, fn_ids=None):
+    """Appending inserts can move a tree's root page (BTree::root_page() changes); the functions that own such trees read the new
+    root back and persist it in the file header (set_root_page).  Instances confirmed by reading are frozen in ROOT_WRITEBACK_FNS:
+    each must still (a) call BTree::root_page on a tree it inserted into and (b) reach set_root_page with a value that depends on
+    that call.  A dropped write-back leaves the header pointing at the old root: everything in the new right sibling is lost."""
+    m = ctx.m
+    for fid, minimum in sorted(ROOT_WRITEBACK_FNS.items()):
+        if fn_ids is not None and fid not in fn_ids:
+            continue
+        f = m.fn(fid)
+        group = [f] + list(common.all_closures(m, f))
+        n = 0
+        for g in group:
+            rps = {c.dest[0] for c in g.calls if c.name.endswith("BTree::<'a, S>::root_page") and c.dest is not None}
+            for c in g.calls:
+                if c.name.endswith("FileHeader::set_root_page") and len(c.args) >= 2:
+                    pl = operand_place(c.args[1])
+                    if pl is not None and (_deps(g, pl[0]) & rps):
+                        n += 1
+        short = fid.rsplit("::", 1)[-1]
+        ctx.ob(rule, short, n >= minimum, "%d root write-back(s) (BTree::root_page() -> set_root_page)" % n if n >= minimum else
+               "%s inserts into a tree but persists its new root %d time(s) (expected >= %d): after a root split the file header keeps the "
+               "old root and the entries in the new sibling become unreachable" % (short, n, minimum), f.loc())
